@@ -1,7 +1,7 @@
 (* Correspondence and monitor for C18, evaluated on cases written by harness/props/c18.py. *)
 From Coq Require Import List Bool Arith ZArith.
 Import ListNotations.
-From HV Require Export lib.PyDict lib.Harness model.BiMapM spec.BiMapS.
+From HV Require Export lib.PyDict lib.Harness model.BiMapM spec.BiMapS model.BiMapHeap spec.BiMapWorldS.
 
 Definition zop := @op Z Z.
 Definition out_eqb (a b : out) : bool :=
@@ -14,11 +14,11 @@ Record obs := { o_items : list (Z * Z); o_len : nat; o_iter : list Z;
                 o_getr : list (option Z);   (* get_right k, k over the key universe *)
                 o_getl : list (option Z);   (* get_left v, v over the value universe *)
                 o_geti : list (option Z) }. (* self[k] : None = KeyError *)
-Record case := { c_keys : list Z; c_vals : list Z; c_init : list (Z * Z);
+Record hcase := { c_keys : list Z; c_vals : list Z; c_init : list (Z * Z);
                  c_init_obs : option obs;                    (* None = NotBijection raised *)
                  c_steps : list (zop * (out * obs)) }.
 
-Definition model_obs (c : case) (b : @bimap Z Z) : obs :=
+Definition model_obs (c : hcase) (b : @bimap Z Z) : obs :=
   {| o_items := items b; o_len := len b; o_iter := iter b;
      o_getr := map (get_right Z.eqb b) (c_keys c);
      o_getl := map (get_left Z.eqb b) (c_vals c);
@@ -30,14 +30,14 @@ Definition obs_eqb (a b : obs) : bool :=
   perm_eqb Z.eqb (o_iter a) (o_iter b) && list_eqb oz_eqb (o_getr a) (o_getr b) &&
   list_eqb oz_eqb (o_getl a) (o_getl b) && list_eqb oz_eqb (o_geti a) (o_geti b).
 
-Fixpoint corr_steps (c : case) (b : @bimap Z Z) (l : list (zop * (out * obs))) : bool :=
+Fixpoint corr_steps (c : hcase) (b : @bimap Z Z) (l : list (zop * (out * obs))) : bool :=
   match l with
   | [] => true
   | (o, (r, ob)) :: rest =>
       let '(b', r') := step Z.eqb Z.eqb b o in
       out_eqb r r' && obs_eqb ob (model_obs c b') && corr_steps c b' rest
   end.
-Definition corr (c : case) : bool :=
+Definition hcorr (c : hcase) : bool :=
   match init Z.eqb (c_init c), c_init_obs c with
   | None, None => match c_steps c with [] => true | _ => false end
   | Some b, Some ob => obs_eqb ob (model_obs c b) && corr_steps c b (c_steps c)
@@ -45,23 +45,92 @@ Definition corr (c : case) : bool :=
   end.
 
 (* monitor: the specification evaluated on the implementation's own observations *)
-Definition obs_consistent (c : case) (ob : obs) : bool :=
+Definition obs_consistent (c : hcase) (ob : obs) : bool :=
   let p := o_items ob in
   wf_pairs_b Z.eqb Z.eqb p && Nat.eqb (o_len ob) (length p) &&
   perm_eqb Z.eqb (o_iter ob) (map fst p) &&
   list_eqb oz_eqb (o_getr ob) (map (a_get_right Z.eqb p) (c_keys c)) &&
   list_eqb oz_eqb (o_getl ob) (map (a_get_left Z.eqb p) (c_vals c)) &&
   list_eqb oz_eqb (o_geti ob) (map (a_get_right Z.eqb p) (c_keys c)).
-Fixpoint mon_steps (c : case) (p : list (Z * Z)) (l : list (zop * (out * obs))) : bool :=
+Fixpoint mon_steps (c : hcase) (p : list (Z * Z)) (l : list (zop * (out * obs))) : bool :=
   match l with
   | [] => true
   | (o, (r, ob)) :: rest =>
       let '(p', r') := a_step Z.eqb Z.eqb p o in
       out_eqb r r' && perm_eqb zz_eqb (o_items ob) p' && obs_consistent c ob && mon_steps c (o_items ob) rest
   end.
-Definition mon (c : case) : bool :=
+Definition hmon (c : hcase) : bool :=
   match a_init Z.eqb (c_init c), c_init_obs c with
   | None, None => match c_steps c with [] => true | _ => false end
   | Some p, Some ob => perm_eqb zz_eqb (o_items ob) p && obs_consistent c ob && mon_steps c (o_items ob) (c_steps c)
   | _, _ => false
   end.
+
+(* ---------- several maps and the caller's seed mappings (ownership of state; model/BiMapHeap.v) ---------- *)
+Definition zsrc := src.
+Definition zwop := @wop Z Z.
+Definition sNone : zsrc := SrcNone.
+Definition sSeed (s : nat) : zsrc := SrcSeed s.
+Definition sMap (i : nat) : zsrc := SrcMap i.
+Definition wNew (j : nat) (s : zsrc) : zwop := WNew j s.
+Definition wOp (i : nat) (o : zop) : zwop := WOp i o.
+Definition wSeedSet (s : nat) (k v : Z) : zwop := WSeedSet s k v.
+Definition wSeedDel (s : nat) (k : Z) : zwop := WSeedDel s k.
+Definition wSeedClear (s : nat) : zwop := WSeedClear s.
+
+(* observed after construction of the seeds and after every step: the items of every seed mapping and the
+   full observation of every map variable (None = not constructed yet) *)
+Record wobs := { wo_seeds : list (list (Z * Z)); wo_slots : list (option obs) }.
+Record wcase := { wc_keys : list Z; wc_vals : list Z; wc_seeds : list (list (Z * Z)); wc_nm : nat;
+                  wc_init_obs : wobs; wc_steps : list (zwop * (out * wobs)) }.
+
+Definition kv_obs (ks vs : list Z) (b : @bimap Z Z) : obs :=
+  {| o_items := items b; o_len := len b; o_iter := iter b;
+     o_getr := map (get_right Z.eqb b) ks; o_getl := map (get_left Z.eqb b) vs; o_geti := map (getitem Z.eqb b) ks |}.
+Definition wmodel_obs (ks vs : list Z) (w : @world Z Z) : wobs :=
+  {| wo_seeds := map (seed_content w) (seq 0 (w_ns w));
+     wo_slots := map (fun i => option_map (kv_obs ks vs) (slot_value w i)) (seq 0 (length (w_slots w))) |}.
+Definition items_eqb := perm_eqb zz_eqb.
+Definition wobs_eqb (a b : wobs) : bool :=
+  list_eqb items_eqb (wo_seeds a) (wo_seeds b) && list_eqb (option_eqb obs_eqb) (wo_slots a) (wo_slots b).
+Fixpoint wcorr_steps (ks vs : list Z) (w : @world Z Z) (l : list (zwop * (out * wobs))) : bool :=
+  match l with
+  | [] => true
+  | (o, (r, ob)) :: rest =>
+      let '(w', r') := wstep Z.eqb Z.eqb w o in
+      out_eqb r r' && wobs_eqb ob (wmodel_obs ks vs w') && wcorr_steps ks vs w' rest
+  end.
+Definition wcorr (c : wcase) : bool :=
+  let w := world0 (wc_seeds c) (wc_nm c) in
+  wobs_eqb (wc_init_obs c) (wmodel_obs (wc_keys c) (wc_vals c) w) && wcorr_steps (wc_keys c) (wc_vals c) w (wc_steps c).
+
+(* monitor: the value-level world specification stepped from the implementation's own previous observation;
+   a step may change only the component it addresses (frame), every map variable stays internally
+   consistent, a constructed map holds the pairs its source showed at that moment *)
+Definition kv_consistent (ks vs : list Z) (ob : obs) : bool :=
+  let p := o_items ob in
+  wf_pairs_b Z.eqb Z.eqb p && Nat.eqb (o_len ob) (length p) &&
+  perm_eqb Z.eqb (o_iter ob) (map fst p) &&
+  list_eqb oz_eqb (o_getr ob) (map (a_get_right Z.eqb p) ks) &&
+  list_eqb oz_eqb (o_getl ob) (map (a_get_left Z.eqb p) vs) &&
+  list_eqb oz_eqb (o_geti ob) (map (a_get_right Z.eqb p) ks).
+Definition aw_of (o : wobs) : @aworld Z Z :=
+  {| a_seeds := wo_seeds o; a_slots := map (option_map o_items) (wo_slots o) |}.
+Definition wobs_ok (ks vs : list Z) (o : wobs) (aw : @aworld Z Z) : bool :=
+  list_eqb items_eqb (wo_seeds o) (a_seeds aw) &&
+  list_eqb (option_eqb items_eqb) (map (option_map o_items) (wo_slots o)) (a_slots aw) &&
+  forallb (fun s => match s with None => true | Some ob => kv_consistent ks vs ob end) (wo_slots o).
+Fixpoint wmon_steps (ks vs : list Z) (prev : wobs) (l : list (zwop * (out * wobs))) : bool :=
+  match l with
+  | [] => true
+  | (o, (r, ob)) :: rest =>
+      let '(aw', r') := a_wstep Z.eqb Z.eqb (aw_of prev) o in
+      out_eqb r r' && wobs_ok ks vs ob aw' && wmon_steps ks vs ob rest
+  end.
+Definition wmon (c : wcase) : bool :=
+  wobs_ok (wc_keys c) (wc_vals c) (wc_init_obs c) (aworld0 (wc_seeds c) (wc_nm c)) &&
+  wmon_steps (wc_keys c) (wc_vals c) (wc_init_obs c) (wc_steps c).
+
+Inductive case := CH (c : hcase) | CW (c : wcase).
+Definition corr (c : case) : bool := match c with CH c => hcorr c | CW c => wcorr c end.
+Definition mon (c : case) : bool := match c with CH c => hmon c | CW c => wmon c end.
